@@ -157,7 +157,7 @@ def gen_history(rng, header, nops, malformed=0.2, stats=None):
             elif r < 0.96:
                 op = ("kstep",)
             elif family in ("buf", "bufedge", "fleet", "slot") and r < 0.985:
-                op = ("probe", rng.choice(["can_put", "can_get", "occ", "ready"]))
+                op = ("probe", rng.choice(["can_put", "can_get", "occ", "ready"] if family != "slot" else ["occ", "ready", "mode", "mode"]))
             elif family in ("buf", "bufedge", "fleet", "slot") and r < 0.99:
                 op = ("final",)
             else:
